@@ -500,6 +500,13 @@ func writeStreamingPacket(conn net.Conn, buf []byte) (int, error) {
 
 	n, err := conn.Write(bufCopy)
 	if err != nil {
+		if n > 0 {
+			// A truncated frame is on the wire (for example the write deadline
+			// expired mid-frame): the peer can no longer find the next frame
+			// boundary, so this stream must not carry anything else.
+			_ = conn.Close()
+		}
+
 		return 0, err
 	}
 
